@@ -139,7 +139,9 @@ CHECKS = {
             "type(self)(...) must bind to the class's constructor and pass its value-bearing flags (upper, dim, "
             "batch_repeat, batch_shape, num_outputs_per_input, open **params) - a dropped flag makes expand / permute / "
             "index / scale / transpose / jitter return an operator that denotes a different matrix; and public arithmetic "
-            "methods dereference a python-scalar operand only behind a type test or conversion. Decided for every "
+            "methods dereference a python-scalar operand only behind a type test or conversion (S), convert it with "
+            "the operator's dtype (S2), and the private hook _mul_constant is reached only through mul(), which "
+            "establishes its precondition, or from its own definitions (H: who-may-call). Decided for every "
             "class x rewrite cell at once. NOT decided: dense values, broadcasting arithmetic of constants, argument "
             "types at rebuild sites, flags hidden behind an unrelated **dict.",
             TRUST + "; reviewed tables of non-value flags and exceptions in lo_static/props/c02.py.", "DESIGN.md section 3, C02"),
